@@ -1,4 +1,7 @@
+#[cfg(not(feature = "verif-hooks"))]
 use std::sync::{Arc, Mutex};
+#[cfg(feature = "verif-hooks")]
+use {crate::verif::sync::Mutex, std::sync::Arc};
 
 use super::RotoString;
 
